@@ -59,8 +59,29 @@ class C19(Check):
                 v["override"] = rng.random() < 0.6
                 v["pdo_size"] = rng.choice(["H", "B", 3, "I"]) if v["override"] else size
             vars_.append(v)
+        # a Struct with TWO members on one PDO entry, of different sizes (a status word and one of its bits): the twin is a
+        # further variable at the same place, reached as member m2 of the primary's Struct
+        twins = {}
+        for k in range(nv):
+            v = vars_[k]
+            if v.get("process") and v["via_struct"] and rng.random() < 0.6:
+                start, avail = v["pos"] + v["struct_off"], terms[v["term"]][v["sm"]]
+                if isinstance(v["size"], int):
+                    cands = [f for f in ("B", "H", "b", "h", "I") if start + SIZE[f] <= avail]
+                else:
+                    cands = list(range(8))
+                if cands:
+                    v["override"] = True
+                    v.setdefault("pdo_size", v["size"])
+                    twins[k] = len(vars_)
+                    vars_.append(dict(v, size=rng.choice(cands), twin_of=k))
         for _ in range(rng.randint(1, 6)):
             k = rng.randrange(nv)
+            if k in twins:
+                # both members are read, in either order
+                order = [k, twins[k]] if rng.random() < 0.5 else [twins[k], k]
+                stmts += [["rd", order[0]], ["rd", order[1]]]
+                continue
             v = vars_[k]
             if v["sm"] == "in" or rng.random() < 0.4:
                 stmts.append(["rd", k])
@@ -92,7 +113,7 @@ class C19(Check):
             for ti, t in enumerate(rig.terms):
                 ns = {}
                 for k, v in enumerate(case["vars"]):
-                    if v["term"] != ti:
+                    if v["term"] != ti or v.get("twin_of") is not None:
                         continue
                     def offsets(v):
                         """(sm3, sm2): the Struct's position offsets for inputs and outputs"""
@@ -106,7 +127,11 @@ class C19(Check):
                             if decoy != coe:
                                 pdos.setdefault((index + decoy, 1), (SM[v["sm"]], 0, "B"))
                         if v["via_struct"]:
-                            ns[f"s{k}"] = type(f"S{k}", (Struct,), {"m": pd})(v.get("other_off", 0), 0, coe)
+                            members = {"m": pd}
+                            for w in case["vars"]:
+                                if w.get("twin_of") == k:
+                                    members["m2"] = ProcessDesc(index, 1, w["size"])
+                            ns[f"s{k}"] = type(f"S{k}", (Struct,), members)(v.get("other_off", 0), 0, coe)
                         else:
                             ns[f"p{k}"] = pd
                     elif v["via_struct"]:
@@ -117,12 +142,15 @@ class C19(Check):
                 t.__class__ = type(f"T{ti}", (type(t),), ns)
 
             def whole(k):
+                if any(w.get("twin_of") == k for w in case["vars"]):
+                    return True
                 return case["vars"][k]["via_struct"] and all(s[0] == "rd" for s in case["stmts"] if s[1] == k) and k % 2 == 0
 
             def devclass(fast):
                 ns = {}
                 for k, v in enumerate(case["vars"]):
-                    ns[f"v{k}"] = TerminalVar()
+                    if v.get("twin_of") is None:
+                        ns[f"v{k}"] = TerminalVar()
                 for j, s in enumerate(case["stmts"]):
                     v = case["vars"][s[1]]
                     if s[0] == "rd":
@@ -136,6 +164,8 @@ class C19(Check):
                         v = case["vars"][k]
 
                         def tv():
+                            if v.get("twin_of") is not None:
+                                return getattr(self, f"v{v['twin_of']}").m2
                             return getattr(self, f"v{k}").m if whole(k) else getattr(self, f"v{k}")
                         if s[0] == "rd":
                             setattr(self, f"r{j}", tv())
@@ -148,6 +178,8 @@ class C19(Check):
 
             def link(dev):
                 for k, v in enumerate(case["vars"]):
+                    if v.get("twin_of") is not None:
+                        continue
                     t = rig.terms[v["term"]]
                     if v["via_struct"]:
                         # a whole Struct can be linked for reading its members; writes need the member itself
@@ -358,7 +390,7 @@ class C19(Check):
 
     def rule(self):
         return ("1-2 terminals (2-12 input / output bytes, FMMU or direct), 1-5 process variables (40% single bits 0..7, else B H I Q b h i q at the start, the end "
-                "or a random position; 25% inside a Struct with a position offset), a device linking all of them, 1-6 statements (reads into DeviceVars, writes of "
+                "or a random position; 25% inside a Struct with a position offset; Structs described by the PDO table often get a second member on the SAME entry with another size - a word and one of its bits - both read in either order), a device linking all of them, 1-6 statements (reads into DeviceVars, writes of "
                 "constants or DeviceVar values, truthy values 2 / 256 for bits), frame regions filled with 0 / 0xff / random bytes; the slow path runs a second cycle on a NEW frame buffer with different contents")
 
     def distribution(self, cases, observed):
